@@ -53,7 +53,9 @@ func startWorker() (*worker, error) {
 		return nil, err
 	}
 	cmd := exec.Command(exe, "hostile-worker")
-	cmd.Env = append(os.Environ(), "GOTRACEBACK=single")
+	// two processors: the worker runs one call at a time; every further processor is a thread (and, with
+	// cgo, an 8 MiB stack mapping) that a collection may have to create under the address-space ceiling
+	cmd.Env = append(os.Environ(), "GOTRACEBACK=single", "GOMAXPROCS=2")
 	in, err := cmd.StdinPipe()
 	if err != nil {
 		return nil, err
@@ -158,8 +160,8 @@ func (w *worker) roundTrip(rq *request, timeout time.Duration) (*response, *deat
 var (
 	cur         *worker
 	callTimeout = 10 * time.Second
-	// A worker that made out-of-proportion allocations frees nothing any more; it is retired once
-	// this much address space is gone (the children run under RLIMIT_AS, see bin/props/c17.py).
+	// A worker never frees anything; it is retired once this much address space is gone (the children
+	// run under RLIMIT_AS, see bin/props/c17.py).
 	taintBudget uint64 = 1 << 30
 	setupOnce   sync.Once
 	sigSeen     = map[string]int{}
@@ -250,7 +252,12 @@ func Replay(i int, raw []byte) child.Result {
 	input := func() map[string]interface{} {
 		return map[string]interface{}{"input_len": len(sc.Bytes), "input_hex": hexClip(sc.Bytes), "spec_verdict": sc.Verdict}
 	}
+	died := map[string]bool{}
 	for _, en := range ens {
+		if en.After != "" && died[en.After] {
+			outcomes[en.Name] = "not run: " + en.After + " killed its process on this input"
+			continue
+		}
 		w, err := getWorker()
 		if err != nil {
 			return child.Inconclusive(fmt.Errorf("cannot start the worker: %v", err))
@@ -291,6 +298,7 @@ func Replay(i int, raw []byte) child.Result {
 				f.Sig = "hostile/" + d.Site + "/crash"
 			}
 			outcomes[en.Name] = "died:" + d.Kind
+			died[en.Name] = true
 			fails = append(fails, f)
 			continue
 		}
@@ -341,15 +349,15 @@ func Replay(i int, raw []byte) child.Result {
 			f := &failure{Sig: "hostile/?/alloc", Entry: en.Name, Detail: det}
 			fails = append(fails, f)
 			pend = append(pend, pendingSite{f, resp.Pending})
-			if resp.Tainted > taintBudget {
-				if err = resolve(pend); err != nil {
-					return child.Inconclusive(err)
-				}
-				pend = nil
+		}
+		if resp.Used > taintBudget {
+			if err = resolve(pend); err != nil {
+				return child.Inconclusive(err)
 			}
+			pend = nil
 		}
 	}
-	if len(pend) > 0 || (cur != nil && cur.calls > 200000) {
+	if len(pend) > 0 {
 		if err = resolve(pend); err != nil {
 			return child.Inconclusive(err)
 		}
